@@ -209,6 +209,9 @@ def read_trace(path):
 # trace validation
 
 
+VACUITY = {}      # antecedent counters of the last validate_traces calls (anti-vacuity evidence)
+
+
 def validate_traces(scr, traces, module="TraceSync", cfg="TraceSync.cfg", invariants=None, timeout=1500):
     """Validate each trace file with TLC (one JVM per file, in parallel).  Returns
     (monitor_hits, broken, states, transitions).  monitor hit = dict(prop,name,sc,i,facts)."""
@@ -242,6 +245,12 @@ def validate_traces(scr, traces, module="TraceSync", cfg="TraceSync.cfg", invari
                 hits.append({"prop": prop, "name": name, "sig": sig, "sc": sc, "i": int(i), "facts": facts, "trace": trc})
             for pl in tagged(r["out"], "BROKEN"):
                 broken.append(pl)
+            for pl in tagged(r["out"], "VACUITY"):
+                try:
+                    for name, n in json.loads(pl):
+                        VACUITY[name] = VACUITY.get(name, 0) + int(n)
+                except Exception:
+                    pass
     if broken:
         raise Inconclusive("simulator/trace disagrees with the environment axioms: %s" % broken[:5])
     return hits, states, trans
